@@ -20,6 +20,31 @@ use serde_json::json;
 pub struct C16;
 
 fn gen_text_stream(rng: &mut Rng, sc: &mut Scenario) -> Vec<u8> {
+    if rng.chance(1, 16) {
+        // a byte order mark (or another multi-byte character) in front of an otherwise
+        // ordinary stream, complete or cut short
+        let w = wire::gen_v1(rng, false);
+        let m: &str = if rng.chance(2, 3) {
+            "\u{feff}"
+        } else {
+            *rng.pick(wire::multibyte_samples())
+        };
+        let mut s = m.as_bytes().to_vec();
+        let keep = if rng.chance(1, 2) {
+            w.bytes.len()
+        } else {
+            rng.range(0, w.bytes.len())
+        };
+        let body = crate::recv::text_view(&w.bytes[..keep]).as_bytes().to_vec();
+        s.extend(body);
+        if rng.chance(1, 3) {
+            while s.len() < 107 {
+                s.push(b'a');
+            }
+        }
+        sc.set_tag("kind", "bom_prefix");
+        return s;
+    }
     match rng.below(12) {
         0..=3 => {
             // well-formed line (free text may be non-ASCII), text trailer
